@@ -17,8 +17,7 @@ def extract_all(root, proto="P"):
         out["python"] = wirelib.extract_schema_py(open(os.path.join(p, mods[0], "protocols.py")).read(), proto)
     cc = os.path.join(root, "out", "cpp", "protocols.cc")
     if os.path.exists(cc):
-        m = _re.search(r'std::string %sWriterBase::schema_ = R"\((.*?)\)";' % proto, open(cc).read(), _re.S)
-        out["cpp"] = m.group(1) if m else None
+        out["cpp"] = wirelib.extract_schema_cpp(open(cc).read(), proto)
     mp = os.path.join(root, "out", "matlab")
     for d, _, files in os.walk(mp):
         for f in files:
@@ -221,8 +220,7 @@ def main():
         schema = p.schema
         res = {"python": schema}
         cc = open(os.path.join(p.root, "cpp", "protocols.cc")).read()
-        m = _re.search(r'std::string PWriterBase::schema_ = R"\((.*?)\)";', cc, _re.S)
-        res["cpp"] = m.group(1) if m else None
+        res["cpp"] = wirelib.extract_schema_cpp(cc, "P")
         # a stream opened by the generated Python writer (closing early raises, but the header has been written)
         f = os.path.join(p.root, "hdr.bin")
         drivers.run_calls([PY, PYCALLS, os.path.join(p.root, "py"), p.pymod, "P"], "wcalls", "binary", f, ["close"])
@@ -248,6 +246,52 @@ def main():
             c.violation("C04:universe:header", "the stream opened by the generated Python writer does not start with magic, version and the schema literal", {"model": model})
         elif r["with_unrelated"] != r["python"]:
             c.violation("C04:universe:unrelated-definition", "adding an unrelated record and protocol changed the schema of protocol P", {"model": model, "schemas": r})
+    # ---- large protocols: the schema of a protocol whose closure holds many records is tens of kilobytes long (beyond the string
+    #      literal limits of some compilers, beyond 64 KiB); it must still be the same text in every language and in the stream
+    def big_model(n):
+        recs = []
+        for i in range(n):
+            recs.append("Rec%d: !record\n  fields:\n    identifier%d: int\n    label%d: string?\n    samples%d: !array {items: float, dimensions: [2, 3]}\n"
+                        "    lookup%d: !map {keys: string, values: int}\n    choice%d: [int, string, float]\n%s" % (
+                            i, i, i, i, i, i, ("    previous%d: !vector {items: Rec%d}\n" % (i, i - 1)) if i else ""))
+        return "".join(recs) + "P: !protocol\n  sequence:\n    first: int\n    all: !stream {items: Rec%d}\n" % (n - 1)
+
+    def bigwork(n):
+        root = os.path.join(sc, "big%d" % n)
+        rc, err = generate(yardl, home, root, {"model.yml": big_model(n)})
+        if rc != 0:
+            return n, None, err
+        s = extract_all(root)
+        f = os.path.join(root, "hdr.bin")
+        pyd = os.path.join(root, "out", "py")
+        mod = [d for d in os.listdir(pyd) if os.path.isdir(os.path.join(pyd, d))][0]
+        drivers.run_calls([PY, PYCALLS, pyd, mod, "P"], "wcalls", "binary", f, ["close"])
+        data = open(f, "rb").read() if os.path.exists(f) else b""
+        s["python_stream_header_ok"] = bool(s.get("python")) and data.startswith(wirelib.binary_header(s["python"]))
+        try:
+            json.loads(s.get("cpp") or "")
+            s["cpp_is_json"] = True
+        except ValueError:
+            s["cpp_is_json"] = False
+        return n, s, ""
+
+    for n, s, err in pmap(bigwork, [3, 25, 60, 110, 200] if c.tier != "thorough" else [3, 25, 40, 60, 85, 110, 150, 200, 400], jobs=5):
+        if s is None:
+            raise Inconclusive("the large model with %d records is not generated: %s" % (n, err))
+        c.count(("big", n), nontrivial=True)
+        c.cov["traces_validated_against_impl"] += 1
+        size = len(s.get("python") or "")
+        c.cov.setdefault("large_schema_bytes", []).append(size)
+        key = "C04:large:%s" % ("<16K" if size < 16000 else "<64K" if size < 65536 else ">=64K")
+        brief = {k: (v[:80] + "..." + str(len(v))) if isinstance(v, str) else v for k, v in s.items()}
+        if not s.get("python") or s.get("cpp") != s["python"] or s.get("matlab") != s["python"]:
+            diff = next((i for i, (x, y) in enumerate(zip(s.get("cpp") or "", s.get("python") or "")) if x != y), None)
+            c.violation(key + ":languages-differ", "protocol with %d records (schema of %d bytes): the schema literal differs between target languages (C++ vs Python first differ at offset %s; lengths cpp=%d python=%d matlab=%d)" % (
+                n, size, diff, len(s.get("cpp") or ""), size, len(s.get("matlab") or "")), {"records": n, "schemas": brief})
+        elif not s["cpp_is_json"]:
+            c.violation(key + ":not-json", "protocol with %d records: the embedded schema is not valid JSON" % n, {"records": n, "schemas": brief})
+        elif not s["python_stream_header_ok"]:
+            c.violation(key + ":header", "protocol with %d records: the stream opened by the generated Python writer does not start with magic, version and the schema literal" % n, {"records": n})
     for x in cases[:3]:
         c.sample({k: v for k, v in x.items() if k != "positions"})
     c.assumptions += ["MATLAB is checked by reading the generated text only", "'free' edits (aliases, renames through aliases, uint64 <-> size) are not constrained by the property"]
